@@ -404,6 +404,14 @@ class Dimension:
     def __getnewargs_ex__(self) -> Tuple[Tuple[Tuple[int, ...]], Dict[str, Any]]:
         return (self.exponents,), {}
 
+    def __setstate__(self, state: Tuple[None, Dict[str, Any]]) -> None:
+        # unpickling or copying re-enters __new__, which returns the interned instance
+        # when there is one: that instance keeps its current names and symbols
+        if getattr(self, "_initialized", False):
+            return
+        for slot, value in state[1].items():
+            setattr(self, slot, value)
+
     # JSON support
 
     def __json__(self) -> Dict[str, Any]:
@@ -690,6 +698,14 @@ class Prefix:
 
     def __getnewargs_ex__(self) -> Tuple[Tuple[int, Numeric], Dict[str, Any]]:
         return (self.base, self.exponent), {}
+
+    def __setstate__(self, state: Tuple[None, Dict[str, Any]]) -> None:
+        # unpickling or copying re-enters __new__, which returns the interned instance
+        # when there is one: that instance keeps its current names and symbols
+        if getattr(self, "_initialized", False):
+            return
+        for slot, value in state[1].items():
+            setattr(self, slot, value)
 
     # JSON support
 
@@ -1042,6 +1058,14 @@ class Unit:
         args = (self.prefix, factors, self.dimension)
         kwargs = {"name": self.name, "symbol": self.symbol}
         return args, kwargs
+
+    def __setstate__(self, state: Tuple[None, Dict[str, Any]]) -> None:
+        # unpickling or copying re-enters __new__, which returns the interned instance
+        # when there is one: that instance keeps its current names and symbols
+        if getattr(self, "_initialized", False):
+            return
+        for slot, value in state[1].items():
+            setattr(self, slot, value)
 
     # JSON support
 
